@@ -10,7 +10,7 @@ for d in $(ls -d $ROOT/C*/ 2>/dev/null | sort); do
   [ -f $d/patch.diff ] || continue
   git -C $WT checkout -q -- . ; git -C $WT clean -fdq
   if ! git -C $WT apply $d/patch.diff 2>/dev/null; then echo "$id APPLY_FAIL"; continue; fi
-  out=$(./bin/sfcheck -repo $WT -prop all -out /tmp/vout_matrix 2>&1)
+  out=$(${BIN:-./bin/sfcheck} -repo $WT -prop all -out /tmp/vout_matrix 2>&1)
   caught=$(echo "$out" | grep -E "^VIOLATION property=" | sed 's/VIOLATION property=\([A-Z0-9]*\).*/\1/' | sort -u | tr '\n' ' ')
   broken=$(echo "$out" | grep -E "^CHECK-BROKEN property=" | sed 's/CHECK-BROKEN property=\([A-Z0-9]*\).*/\1/' | sort -u | tr '\n' ' ')
   echo "$id caught_by=[$caught] broken=[$broken]"
